@@ -4,9 +4,9 @@ import SqfModel.Basic
 
 `next` mirrors `tokenizer::next()` / `try_match`: dispatch on the first character to an ordered list
 of candidate token kinds, the first candidate with a non-zero length wins.  Line/column accounting is
-modelled exactly as the C++ does it (including its quirks: a doubled quote inside a string advances
-the column by one, a line comment bumps the line although the newline is left for the next token, the
-block-comment terminator is *not* consumed).  Every read is bounds-checked by construction (pattern
+modelled exactly as the C++ does it (including its quirk that a doubled quote inside a string advances
+the column by one; a line comment leaves its newline, and the counting of the line, to the white space
+behind it; lines are counted from 1).  Every read is bounds-checked by construction (pattern
 matching on the remaining list) — the C++ routes every read through `is_match(iter)`, which tests
 `iter < m_end`.
 -/
@@ -143,15 +143,15 @@ def lineCommentLen : List B → Nat
   | 47 :: 47 :: r => 2 + lenWhile (fun c => c != 10) r
   | _ => 0
 
-/-- block comment body after `/*`: scans to the first `*/` (not consumed) or the end of input;
+/-- block comment body after `/*`: scans through the first `*/` or to the end of input;
     returns (length, line, column) -/
 def scanBlock : List B → Nat → Nat → Nat → Nat × Nat × Nat
   | [], n, l, k => (n, l, k)
   | [c], n, l, k => if c == 10 then (n + 1, l + 1, 0) else (n + 1, l, k + 1)
   | c :: c' :: cs, n, l, k =>
     if c == 42 && c' == 47 then
-      -- terminator found; the "EOF check" of the C++ tests for `//`, which cannot hold here
-      (n, l, k)
+      -- the terminator is part of the comment
+      (n + 2, l, k + 2)
     else if c == 10 then scanBlock (c' :: cs) (n + 1) (l + 1) 0
     else scanBlock (c' :: cs) (n + 1) l (k + 1)
 
@@ -184,11 +184,11 @@ def matchKind (st : LState) : TK → Option Match
   | .mLine => matchLine st
   | .commentLine =>
     let n := lineCommentLen st.rest
-    if n == 0 then none else some { len := n, line := st.line + 1, col := 0, file := st.file }
+    if n == 0 then none else some { len := n, line := st.line, col := st.col, file := st.file }
   | .commentBlock =>
     match st.rest with
     | 47 :: 42 :: r =>
-      let (n, l, k) := scanBlock r 2 st.line st.col
+      let (n, l, k) := scanBlock r 2 st.line (st.col + 2)
       some { len := n, line := l, col := k, file := st.file }
     | _ => none
   | .whitespace =>
@@ -266,7 +266,7 @@ def next (st : LState) : Token × LState :=
          { rest := st.rest.drop m.len, line := m.line, col := m.col, off := st.off + m.len, file := m.file })
 
 def LState.init (s : List B) (file : Name) : LState :=
-  { rest := s, line := 0, col := 0, off := 0, file := file }
+  { rest := s, line := 1, col := 0, off := 0, file := file }
 
 /-- All tokens up to and including the first `eof`/`invalid` (fuel = an upper bound on the number
     of tokens; `length + 1` always suffices because every other token consumes at least one byte). -/
